@@ -757,9 +757,10 @@ qb_ipcs_dispatch_connection_request(int32_t fd, int32_t revents, void *data)
 	ssize_t avail;
 
 	if (c == NULL) {
-		res = -EINVAL;
-		goto dispatch_cleanup;
+		return -EINVAL;
 	}
+	/* msg_process() may disconnect (and thereby release) the connection */
+	qb_ipcs_connection_ref(c);
 
 	if (revents & POLLNVAL) {
 		qb_util_log(LOG_DEBUG, "NVAL conn (%s)", c->description);
@@ -855,6 +856,7 @@ dispatch_cleanup:
 	if (res != 0) {
 		qb_ipcs_disconnect(c);
 	}
+	qb_ipcs_connection_unref(c);
 	return res;
 }
 
